@@ -9,6 +9,7 @@ import "sync/atomic"
 var (
 	pointHandler  atomic.Pointer[func(string)]
 	pausedHandler atomic.Pointer[func(string) bool]
+	int64Handler  atomic.Pointer[func(string) int64]
 )
 
 // SetPointHandler installs (or, with nil, removes) the handler invoked by Point.
@@ -42,4 +43,21 @@ func Paused(name string) bool {
 		return (*h)(name)
 	}
 	return false
+}
+
+// SetInt64Handler installs (or, with nil, removes) the provider behind Int64.
+func SetInt64Handler(f func(name string) int64) {
+	if f == nil {
+		int64Handler.Store(nil)
+		return
+	}
+	int64Handler.Store(&f)
+}
+
+// Int64 returns a harness-provided tuning value, or 0 when none is set.
+func Int64(name string) int64 {
+	if h := int64Handler.Load(); h != nil {
+		return (*h)(name)
+	}
+	return 0
 }
